@@ -14,6 +14,16 @@ Theorem C20_set_correct : forall ps s, is_match ps s = Some (existsb (fun p => w
 Proof. exact is_match_correct. Qed.
 Print Assumptions C20_set_correct.
 
+(* a pattern set is refused exactly when one of its patterns is empty - wherever it stands in the set and whatever stands before it -
+   and an accepted set consists of exactly the patterns given (none dropped, none added) *)
+Theorem C20_empty_pattern_refused_exactly : forall ps,
+  (new_set ps = None <-> In [] ps) /\ (forall qs, new_set ps = Some qs -> qs = ps /\ ~ In [] ps).
+Proof. exact new_set_refuses_exactly. Qed.
+Print Assumptions C20_empty_pattern_refused_exactly.
+Example C20_empty_after_star : new_set [[42%N]; []] = None /\ new_set [[42%N]; [97%N]] = Some [[42%N]; [97%N]].
+Proof. split; reflexivity. Qed.
+Print Assumptions C20_empty_after_star.
+
 From S3V Require Import lib.Bytes model.Policy proofs.PolicyProofs.
 
 (* Every policy value survives encoding and decoding, outside the known class One "*" (wf_policy also
